@@ -109,12 +109,31 @@ func (p *Prog) errLeaves(v ssa.Value, pred, succ *ssa.BasicBlock, depth int, see
 	}
 	if ph, ok := v.(*ssa.Phi); ok {
 		if seen[v] {
-			return nil
+			// the value is carried around unchanged
+			return []errLeaf{{"carried", ""}}
 		}
 		seen[v] = true
 		var res []errLeaf
+		// loop-carried error at a loop head: every back edge (an attempt that failed and is retried)
+		// must bring a recorded, non-nil error — otherwise exhausting the attempts returns the initial nil
+		var lp *loopInfo
+		for _, l := range naturalLoops(ph.Parent()) {
+			if l.head == ph.Block() {
+				lp = l
+			}
+		}
 		for i, e := range ph.Edges {
-			res = append(res, p.errLeaves(e, ph.Block().Preds[i], ph.Block(), depth+1, seen)...)
+			pr := ph.Block().Preds[i]
+			sub := p.errLeaves(e, pr, ph.Block(), depth+1, seen)
+			if lp != nil && lp.body[pr] {
+				for _, l := range sub {
+					if l.kind != "nonnil" {
+						sub = []errLeaf{{"unknown", "a retry iteration can reach the next attempt (" + p.ipos(pr.Instrs[len(pr.Instrs)-1]) + ") without having recorded a non-nil error: after the last attempt the wrapper returns the initial nil"}}
+						break
+					}
+				}
+			}
+			res = append(res, sub...)
 		}
 		return res
 	}
@@ -155,6 +174,7 @@ func c20err(p *Prog, r *Report) {
 				switch l.kind {
 				case "unknown":
 					bad = "a path returns an error value that is neither known non-nil nor the RPC's own nil result (" + l.at + ")"
+				case "carried":
 				case "rpc-ok":
 					nOK++
 				case "initial-nil":
